@@ -88,6 +88,7 @@ import JdProofs.CliExitCodes
 import JdProofs.CliRoundTripModesEx
 import JdProofs.CliRoundTripModesPatch
 import JdProofs.CliRoundTripModes
+import JdProps.C14V1
 
 set_option autoImplicit false
 
